@@ -169,3 +169,110 @@ class LanguageGraph:
                         'stepExpressions': step['reaches']['stepExpressions']
                     }
         return attack_steps
+
+
+# ---- T12  association validation (C06): identical association, repeated asset inside a field,
+#           already linked pair - each rejected, none of the checks can be skipped; add_association
+#           validates before it writes anything.
+class Model:
+    def _validate_association(self, association):
+        association_type = association.__class__.__name__
+        associations_same_type = self._type_to_association.get(association_type, [])
+        if association in associations_same_type:
+            raise DuplicateModelAssociationError()
+        left_field_name, right_field_name = self.get_association_field_names(association)
+        for field_name in (left_field_name, right_field_name):
+            field_assets = getattr(association, field_name)
+            unique_field_asset_names = {a.name for a in field_assets}
+            if len(field_assets) > len(unique_field_asset_names):
+                raise ModelAssociationException()
+        for left_asset in getattr(association, left_field_name):
+            for right_asset in getattr(association, right_field_name):
+                if self.association_exists_between_assets(association_type, left_asset, right_asset):
+                    raise DuplicateModelAssociationError()
+
+    def add_association(self, association):
+        self._validate_association(association)
+        if not hasattr(association, 'extras'):
+            association.extras = {}
+        field_names = self.get_association_field_names(association)
+        for field_name in field_names:
+            for asset in getattr(association, field_name):
+                asset.associations.append(association)
+        self.associations.append(association)
+        self._type_to_association.setdefault(association.__class__.__name__, []).append(association)
+
+
+# ---- T11  JSON-schema literals of the class factory (C06)
+class LanguageClassesFactory:
+    def _generate_assets(self):
+        for asset in self.lang_graph.assets:
+            asset_json_entry = {'title': asset.name, 'type': 'object', 'properties': {}}
+            asset_json_entry['properties']['id'] = {'type': 'integer'}
+            asset_json_entry['properties']['type'] = {'type': 'string', 'default': asset.name}
+            if asset.super_assets:
+                asset_json_entry['allOf'] = [
+                    {'$ref': '#/definitions/LanguageAsset/definitions/' + superasset.name}
+                    for superasset in asset.super_assets]
+            for defense in asset.attack_steps:
+                if defense.type == 'defense':
+                    if defense.ttc and defense.ttc['name'] == 'Enabled':
+                        default_defense_value = 1.0
+                    else:
+                        default_defense_value = 0.0
+                    asset_json_entry['properties'][defense.name] = {
+                        'type': 'number', 'minimum': 0, 'maximum': 1, 'default': default_defense_value}
+            self.json_schema['definitions']['LanguageAsset']['definitions'][asset.name] = asset_json_entry
+            self.json_schema['definitions']['LanguageAsset']['oneOf'].append(
+                {'$ref': '#/definitions/LanguageAsset/definitions/' + asset.name})
+
+    def get_association_by_signature(self, assoc_name, left_asset, right_asset):
+        lang_assocs_entries = self.json_schema['definitions']['LanguageAssociation']['definitions']
+        if assoc_name not in lang_assocs_entries:
+            raise LookupError()
+        assoc_entry = lang_assocs_entries[assoc_name]
+        if 'definitions' in assoc_entry and len(assoc_entry['definitions']) > 1:
+            full_name = '%s_%s_%s' % (assoc_name, left_asset, right_asset)
+            full_name_flipped = '%s_%s_%s' % (assoc_name, right_asset, left_asset)
+            if full_name in assoc_entry['definitions']:
+                return full_name
+            if full_name_flipped in assoc_entry['definitions']:
+                return full_name_flipped
+            raise LookupError()
+        return assoc_name
+
+    def _generate_associations(self):
+        def field_entry(assoc, assoc_json_entry, field):
+            assoc_json_entry['properties'][field.fieldname] = {
+                'type': 'array',
+                'items': {'$ref': '#/definitions/LanguageAsset/definitions/' + field.asset.name}}
+            if field.maximum:
+                assoc_json_entry['properties'][field.fieldname]['maxItems'] = field.maximum
+
+        def entry(assoc):
+            assoc_json_entry = {'title': assoc.name, 'type': 'object', 'properties': {}}
+            field_entry(assoc, assoc_json_entry, assoc.left_field)
+            field_entry(assoc, assoc_json_entry, assoc.right_field)
+            return assoc_json_entry
+
+        for assoc in self.lang_graph.associations:
+            count = len([a for a in self.lang_graph.associations if a.name == assoc.name])
+            if count > 1:
+                if assoc.name not in self.json_schema['definitions']['LanguageAssociation']['definitions']:
+                    self.json_schema['definitions']['LanguageAssociation']['definitions'][assoc.name] = {
+                        'title': assoc.name, 'type': 'object', 'oneOf': [], 'definitions': {}}
+                    self.json_schema['definitions']['LanguageAssociation']['oneOf'].append(
+                        {'$ref': '#/definitions/LanguageAssociation/definitions/' + assoc.name})
+                assoc_json_subentry = entry(assoc)
+                subentry_name = assoc.name + '_' + assoc.left_field.asset.name + '_' + assoc.right_field.asset.name
+                assoc_json_subentry['title'] = subentry_name
+                self.json_schema['definitions']['LanguageAssociation']['definitions'][assoc.name][
+                    'definitions'][subentry_name] = assoc_json_subentry
+                self.json_schema['definitions']['LanguageAssociation']['definitions'][assoc.name]['oneOf'].append(
+                    {'$ref': '#/definitions/LanguageAssociation/definitions/' + assoc.name + '/definitions/'
+                             + subentry_name})
+            else:
+                assoc_json_entry = entry(assoc)
+                self.json_schema['definitions']['LanguageAssociation']['definitions'][assoc.name] = assoc_json_entry
+                self.json_schema['definitions']['LanguageAssociation']['oneOf'].append(
+                    {'$ref': '#/definitions/LanguageAssociation/' + 'definitions/' + assoc.name})
